@@ -12,7 +12,7 @@ import os
 import re
 import z3
 
-from .core import Agg, SymEnum, Ref, SeqV, Opaque, UNIT, FnItem, Executor, Path, MirFrame
+from .core import Agg, SymEnum, Ref, SeqV, Opaque, UNIT, FnItem, Executor, Path, MirFrame, vkey as _vk
 from .mir import MirUnsupported
 from . import contracts as C
 from .contracts import some, NONE, ok, err, is_variant, payload, fork_variant, str_eq, call_closure
@@ -72,6 +72,50 @@ def split_fields(s):
     return out
 
 
+def struct_fields(src_path, name):
+    """field (name, type) list of `struct name { ... }` in declaration order (= MIR field indices)"""
+    src = open(src_path).read()
+    m = re.search(r'struct %s\b[^{;]*\{(.*?)\n\}' % re.escape(name), src, re.S)
+    if not m:
+        raise MirUnsupported('struct %s not found in %s' % (name, src_path))
+    body = re.sub(r'//[^\n]*', '', m.group(1))
+    out = []
+    for f in split_fields(body):
+        mm = re.match(r'\s*(?:#\[[^\]]*\]\s*)*(?:pub(?:\([^)]*\))?\s+)?(\w+)\s*:\s*(.*)', f.strip(), re.S)
+        if mm:
+            out.append((mm.group(1), ' '.join(mm.group(2).split())))
+    return out
+
+
+class Layout:
+    """field indices of the transformer structs, read from the current source (so inserting a field does not break the harness)"""
+
+    def __init__(self):
+        from lib.common import SC
+        lib = os.path.join(SC, 'src', 'lib.rs')
+        self.ss = struct_fields(lib, 'StyleSheetTransformer')
+        self.opts = struct_fields(lib, 'StyleSheetOptions')
+        self.S = {n: i for i, (n, _) in enumerate(self.ss)}
+        self.O = {n: i for i, (n, _) in enumerate(self.opts)}
+        need_s = ('options', 'normal_output', 'low_priority_output', 'using_low_priority', 'warnings', 'cur_at_rule_stacks')
+        need_o = ('class_prefix', 'class_prefix_sign', 'rpx_ratio', 'import_sign', 'convert_host', 'host_is')
+        for n in need_s:
+            if n not in self.S:
+                raise MirUnsupported('StyleSheetTransformer has no field %s any more: the harness must be adapted' % n)
+        for n in need_o:
+            if n not in self.O:
+                raise MirUnsupported('StyleSheetOptions has no field %s any more: the harness must be adapted' % n)
+
+
+_LAYOUT = []
+
+
+def layout():
+    if not _LAYOUT:
+        _LAYOUT.append(Layout())
+    return _LAYOUT[0]
+
+
 TOKEN_DISCR, TOKEN_FIELDS = cssparser_token_variants()
 TK = TOKEN_DISCR
 OPENERS = ('Function', 'ParenthesisBlock', 'SquareBracketBlock', 'CurlyBracketBlock')
@@ -85,6 +129,7 @@ SC_ENUMS = {
 loc_line = z3.Function('loc_line', z3.IntSort(), z3.IntSort(), z3.IntSort(), z3.IntSort())
 loc_col = z3.Function('loc_col', z3.IntSort(), z3.IntSort(), z3.IntSort(), z3.IntSort())
 urlenc = z3.Function('urlencoding_encode', z3.StringSort(), z3.StringSort())
+urldec = z3.Function('urlencoding_decode', z3.StringSort(), z3.StringSort())
 LEVEL_IDS = {}
 
 
@@ -393,7 +438,8 @@ class Css:
         def current_source_location(exe, path, callee, args, dst_ty):
             level = env.level_of(exe, path, args[0])
             pos, pending = env.cpos(path, level)
-            a = (z3.IntVal(level_code(level)), z3.IntVal(pos), z3.IntVal(-1 if pending is None else pending))
+            pe = z3.IntVal(-1) if pending is None else z3.If(is_kind(level, pending, *OPENERS), z3.IntVal(pending), z3.IntVal(-1))
+            a = (z3.IntVal(level_code(level)), z3.IntVal(pos), z3.simplify(pe))
             col = loc_col(*a)
             line = loc_line(*a)
             path.pc.append(z3.And(col >= 1, col < 2**31, line >= 0, line < 2**31))
@@ -434,13 +480,19 @@ class Css:
 
         @reg(r'^(urlencoding::)?encode$')
         def urlencode(exe, path, callee, args, dst_ty):
-            s = exe.deref_all(path, args[0])
+            s = C.strval(exe, path, args[0])
             return [('ret', path, urlenc(s))]
+
+        @reg(r'^(urlencoding::)?decode$')
+        def urldecode(exe, path, callee, args, dst_ty):
+            s = C.strval(exe, path, args[0])
+            okp, errp = path.clone(), path
+            return [('ret', okp, ok(urldec(s))), ('ret', errp, err(Opaque('FromUtf8Error', {'structural': True})))]
 
         # ------------------------------------------------------------ format!
         @reg(r"core::fmt::rt::Argument::<'_>::new_display::<")
         def new_display(exe, path, callee, args, dst_ty):
-            return [('ret', path, Agg('FmtArg', None, {0: exe.deref_all(path, args[0])}))]
+            return [('ret', path, Agg('FmtArg', None, {0: C.strval(exe, path, args[0])}))]
 
         @reg(r"^Arguments::<'_>::new::<")
         def arguments_new(exe, path, callee, args, dst_ty):
@@ -483,10 +535,11 @@ class Css:
 
         # ------------------------------------------------------------ outputs (events)
         def which(out_ref):
+            lay = layout()
             for st in out_ref.proj:
-                if st == ('field', 2):
+                if st == ('field', lay.S['normal_output']):
                     return 'normal'
-                if st == ('field', 3):
+                if st == ('field', lay.S['low_priority_output']):
                     return 'low'
             return repr(out_ref)
 
@@ -539,8 +592,10 @@ class Css:
                 return [('diverge', path)]
             env.set_cpos(path, level, pos, None)
             ss = exe.deref_all(path, args[1])
-            low = ss.fields.get(4) if isinstance(ss, Agg) else None
-            path.event('recurse', name, level, pending, opts, low, ss.fields.get(6) if isinstance(ss, Agg) else None)
+            lay = layout()
+            low = ss.fields.get(lay.S['using_low_priority']) if isinstance(ss, Agg) else None
+            path.event('recurse', name, level, pending, opts, low, ss.fields.get(lay.S['cur_at_rule_stacks']) if isinstance(ss, Agg) else None)
+            env.havoc(exe, path, args[1])
             return [('ret', path, UNIT)]
         if 'convert_rpx_in_block' in names:
             def c1(exe, path, callee, args, dst_ty):
@@ -562,8 +617,10 @@ class Css:
                 pos, pending = env.cpos(path, level)
                 # consumes the rest of the level
                 ss = exe.deref_all(path, args[1])
-                path.event('recurse', 'parse_rules', level, pos, None, ss.fields.get(4) if isinstance(ss, Agg) else None,
-                           ss.fields.get(6) if isinstance(ss, Agg) else None)
+                lay = layout()
+                path.event('recurse', 'parse_rules', level, pos, None, ss.fields.get(lay.S['using_low_priority']) if isinstance(ss, Agg) else None,
+                           ss.fields.get(lay.S['cur_at_rule_stacks']) if isinstance(ss, Agg) else None)
+                env.havoc(exe, path, args[1])
                 env.set_cpos(path, level, env.lmax + 1, None)
                 path.pc.append(level_len(level) <= env.lmax)
                 return [('ret', path, UNIT)]
@@ -571,11 +628,13 @@ class Css:
         if 'write_maybe_class_name' in names:
             def c4(exe, path, callee, args, dst_ty):
                 path.event('class_name', exe.snapshot(path, args[2]), exe.snapshot(path, args[3]), args[4])
+                env.havoc(exe, path, args[1])
                 return [('ret', path, UNIT)]
             T.append((r'^write_maybe_class_name$', c4))
         if 'write_maybe_rpx_dimension' in names:
             def c5(exe, path, callee, args, dst_ty):
                 path.event('rpx_dimension', exe.snapshot(path, args[2]), args[3], args[4], args[5], exe.snapshot(path, args[6]))
+                env.havoc(exe, path, args[1])
                 return [('ret', path, UNIT)]
             T.append((r'^write_maybe_rpx_dimension$', c5))
         return T
@@ -599,16 +658,101 @@ class Css:
                 return SymEnum('opt_' + name, 'Option', z3.If(b, z3.IntVal(1), z3.IntVal(0)), lambda var, j, _s=s: _s)
             return some(z3.StringVal(v))
         conv = o.get('convert_host', 'sym')
-        options_v = Agg('StyleSheetOptions', None, {
-            0: opt_string('class_prefix'), 1: opt_string('class_prefix_sign'), 2: z3.Real('opt_rpx_ratio'),
-            3: opt_string('import_sign'), 4: z3.Bool('opt_convert_host') if conv == 'sym' else z3.BoolVal(bool(conv)),
-            5: opt_string('host_is')})
+        lay = layout()
+        ofields = {}
+        for i, (fname, fty) in enumerate(lay.opts):
+            if fname in ('class_prefix', 'class_prefix_sign', 'import_sign', 'host_is'):
+                ofields[i] = opt_string(fname)
+            elif fname == 'rpx_ratio':
+                ofields[i] = z3.Real('opt_rpx_ratio')
+            elif fname == 'convert_host':
+                ofields[i] = z3.Bool('opt_convert_host') if conv == 'sym' else z3.BoolVal(bool(conv))
+            else:
+                ofields[i] = self.fresh_by_type(exe, p, fty, 'opt_' + fname)
+        options_v = Agg('StyleSheetOptions', None, ofields)
         stacks = o.get('at_rule_stack', 0)
-        p.store[('heap', 'ss')] = Agg('StyleSheetTransformer', None, {
-            0: options_v, 1: z3.String('ss_path'), 2: Agg('StyleSheetOutput', None, {0: 'normal'}), 3: Agg('StyleSheetOutput', None, {0: 'low'}),
-            4: z3.BoolVal(False), 5: Agg('Vec', None, {}),
-            6: Agg('Vec', None, {i: z3.String('at_rule_%d' % i) for i in range(stacks)})})
+        sfields = {}
+        for i, (fname, fty) in enumerate(lay.ss):
+            if fname == 'options':
+                sfields[i] = options_v
+            elif fname == 'path':
+                sfields[i] = z3.String('ss_path')
+            elif fname == 'normal_output':
+                sfields[i] = Agg('StyleSheetOutput', None, {0: 'normal'})
+            elif fname == 'low_priority_output':
+                sfields[i] = Agg('StyleSheetOutput', None, {0: 'low'})
+            elif fname == 'using_low_priority':
+                sfields[i] = z3.BoolVal(False)
+            elif fname == 'warnings':
+                sfields[i] = Agg('Vec', None, {})
+            elif fname == 'cur_at_rule_stacks':
+                sfields[i] = Agg('Vec', None, {j: z3.String('at_rule_%d' % j) for j in range(stacks)})
+            else:
+                # a field this harness does not know: arbitrary value of its type
+                sfields[i] = self.fresh_by_type(exe, p, fty, 'ss_' + fname)
+        p.store[('heap', 'ss')] = Agg('StyleSheetTransformer', None, sfields)
+        p.env['ss_entry'] = tuple(sorted((k, _vk(v)) for k, v in sfields.items()))
         return p
+
+    def fresh_by_type(self, exe, p, fty, hint):
+        fty = fty.strip()
+        if fty == 'bool':
+            return z3.Bool(hint)
+        if fty in ('usize', 'u32', 'u64', 'i32', 'i64', 'u8', 'u16', 'isize'):
+            return exe.fresh(p, fty, hint)
+        if fty in ('f32', 'f64'):
+            return z3.Real(hint)
+        if fty == 'String' or fty == '&str':
+            return z3.String(hint)
+        if fty.startswith('Option<String>'):
+            b = z3.Bool(hint + '_some')
+            sv = z3.String(hint)
+            return SymEnum(hint, 'Option', z3.If(b, z3.IntVal(1), z3.IntVal(0)), lambda var, j, _s=sv: _s)
+        if fty.startswith('Option<bool>'):
+            b = z3.Bool(hint + '_some')
+            bv = z3.Bool(hint + '_v')
+            return SymEnum(hint, 'Option', z3.If(b, z3.IntVal(1), z3.IntVal(0)), lambda var, j, _s=bv: _s)
+        if fty.startswith('Vec<'):
+            return Agg('Vec', None, {})
+        return Opaque(fty, {'structural': True, 'hint': hint})
+
+    # ---- modifies sets (assume-guarantee across routines)
+    HAVOC = ()       # field indices of StyleSheetTransformer that a callee may leave changed (established by modified_fields)
+
+    def havoc(self, exe, path, ss_ref):
+        if not self.HAVOC:
+            return
+        lay = layout()
+        ss = exe.deref_all(path, ss_ref)
+        n = path.env.get('havoc_n', 0) + 1
+        path.env['havoc_n'] = n
+        for i in self.HAVOC:
+            fname, fty = lay.ss[i]
+            ss = ss.with_field(i, self.fresh_by_type(exe, path, fty, 'havoc%d_%s' % (n, fname)))
+        ref = ss_ref
+        while isinstance(exe.load(path, ref), Ref):
+            ref = exe.load(path, ref)
+        exe.store_at(path, ref.key, ref.proj, ss)
+
+    @staticmethod
+    def modified_fields(paths):
+        """fields of the transformer whose value at return can differ from the value at entry (outputs / warnings excluded)"""
+        lay = layout()
+        skip = {lay.S['normal_output'], lay.S['low_priority_output'], lay.S['warnings']}
+        mod = set()
+        for q in paths:
+            if q.status != 'returned' or 'ss_entry' not in q.env:
+                continue
+            entry = dict(q.env['ss_entry'])
+            ss = q.store.get(('heap', 'ss'))
+            if not isinstance(ss, Agg):
+                continue
+            for k, v in ss.fields.items():
+                if k in skip:
+                    continue
+                if entry.get(k) != _vk(v):
+                    mod.add(k)
+        return mod
 
     def executor(self, mod, event_names=(), lmax=None, max_visits=None, extra=()):
         exe = Executor(mod, list(extra) + self.routine_events(event_names) + self.table + C.TABLE, enums=SC_ENUMS,
